@@ -12,12 +12,16 @@ sys.dont_write_bytecode = True
 TECHNIQUE = {
     'C01': 'static analysis: inventory of error-reporting sites against a reference table, '
            'pass-sequence and sibling-agreement rules over ast path conditions, typestate of '
-           'symbol environments (vacuous-guard detection), parser-state reset rule',
+           'symbol environments (vacuous-guard detection), parser-state reset rule, spec '
+           'grammar and lexer tables extracted from docstrings (well-formedness, p[k] bounds, '
+           'LALR witness sentence / first-token witness text against the reference tables)',
     'C02': 'static analysis: registry typestate and ownership (who writes which registry), '
            'field-order predicates, falsy-value-confusion lint over the IR and frontend',
     'C03': 'static analysis: exception-escape effect analysis over the call graph (least '
            'fixpoint, try/except filtering), implicit-raise idioms, class-lattice dispatch '
-           'exhaustiveness, environment and registry typestate',
+           'exhaustiveness, environment and registry typestate, class test before partial '
+           'attributes of heterogeneous grammar lists, lexer state-stack guard, callee-assert '
+           'precondition at every call site',
     'C04': 'static analysis: sibling agreement of encoder/decoder dispatch partitions over the '
            'validator class lattice, inverse primitive pairs, imported validator-profile rules',
     'C05': 'static analysis: encoder shape partition (class lattice + path conditions) compared '
@@ -42,7 +46,9 @@ TECHNIQUE = {
            'must-pass-through, reaching definitions of the validator handed to the hook, '
            'search-loop exit rule, class-lattice exhaustiveness of redactor kinds',
     'C14': 'static analysis: sibling agreement of signature / construction / constructor field '
-           'order, generated-name agreement, generator totality by class-lattice typing',
+           'order, generated-name agreement (qualifier and class name from one object, import '
+           'condition covers every namespace named, suffixed method names in the conflict '
+           'check), generator totality by class-lattice typing',
     'C15': 'static analysis: sibling agreement between stub and runtime emitters per declaration '
            'kind, type-mapping exhaustiveness, import registration, generator totality',
     'C16': 'static analysis: dispatch exhaustiveness and truth tables of the JS/TS emitters, '
@@ -53,14 +59,19 @@ TECHNIQUE = {
     'C18': 'static analysis: write-sink containment by reaching definitions and guard '
            'dominance, buffer ownership, manifest-mode reader inventory, every-path text emission',
     'C19': 'static analysis: LALR(1) table inspection of the filter grammar (thorough tier), '
-           'evaluator truth tables, pruning-site pairing, regex-AST rule for lexer literals',
+           'filter grammar / lexer tables against the reference by witness sentence and witness '
+           'text, evaluator truth tables, pruning-site pairing, regex-AST rule for lexer literals',
     'C20': 'static analysis: traversal coverage of reference-bearing attributes over the IR '
            'class lattice, registry rewrite inventory, route identity encode/decode pairing',
 }
 
-DRIFT_SUFFIX = ('; cross-check through time against reference tables of the confirmed tree: '
-                'condition / decision / expression drift, call conditions by truth table over '
-                'path atoms (must-pass-through), memo-key completeness')
+DRIFT_SUFFIX = ('; all over a canonicalised program model (syntax normal forms, virtual inlining '
+                'of helpers the confirmed tree does not have, alpha-normalised locals); cross-check '
+                'through time against reference tables of the confirmed tree: effect-condition '
+                'drift (path formula of every raise / return / assignment / call compared by '
+                'truth table over the leaf tests), expression drift, interface drift (constants '
+                'by folded value, regexes by witness text, defaults, special methods, caching '
+                'decorators), memo-key completeness, ownership by call-graph closure')
 
 NOT_BUILT = 'check not built yet (see DESIGN.md section 4 for the planned structural rules)'
 NA = {}
